@@ -202,6 +202,7 @@ Lemma register_fresh e s code_id creator admin label salt a s1 :
   bank s1 = bank s /\ cstore s1 = cstore s.
 Proof.
   unfold register_contract. destruct (find_code code_id (codes e)) as [co|] eqn:Ec; [|discriminate].
+  destruct (negb (salt_ok salt)); [discriminate|].
   destruct (new_address e s code_id creator salt) as [a0|]; [|discriminate].
   destruct (lookup a0 (reg s)) eqn:El; [discriminate|]. intros H. injection H as <- <-.
   repeat split; auto. discriminate.
